@@ -32,7 +32,7 @@ RULE = ('request targets: all sequences of <= 4 (thorough: 6 sampled) tokens ove
 	'x Host forms (reg-name, IPv4, bracketed IPv6, with/without port, upper case, invalid, absent) x HTTP/1.0, 1.1; non-trivial = delivered; distinct by (target, host)')
 
 TOKENS = [b'/', b'.', b'..', b'%2e', b'%2E', b'%2f', b'%5c', b'\\', b'%25', b'%c0%ae', b'%252e', b';', b'a', b'b']
-HOSTS = [b'example.com', b'EXAMPLE.com:8080', b'127.0.0.1', b'127.0.0.1:81', b'[::1]', b'[2001:db8::1]:8443', b'h:0', b'h:65536', b'h:99999999999', b'', b'a b', b'h:', b'[::1', b'1.2.3', b'under_score', b'h,i', None, b'x:y', b'-', b'h.:80']
+HOSTS = [b'example.com', b'EXAMPLE.com:8080', b'127.0.0.1', b'127.0.0.1:81', b'[::1]', b'[2001:db8::1]:8443', b'h:0', b'h:65536', b'h:99999999999', b'', b'a b', b'h:', b'[::1', b'1.2.3', b'under_score', b'h,i', None, b'x:y', b'-', b'h.:80', b'example.com]', b'[[::1]]', b'[example.com:81', b']example.com[', b'[::1]]:80', b'[h', b'h]:80', b'[1.2.3.4]']
 
 
 def cases(rng, tier):
